@@ -57,6 +57,7 @@ POOL = {
     "S": ({"S": 1}, 0), "S+": ({"S": 1}, 1), "Si": ({"Si": 1}, 0), "Si+": ({"Si": 1}, 1), "SiO": ({"Si": 1, "O": 1}, 0), "SO": ({"S": 1, "O": 1}, 0),
     "SO+": ({"S": 1, "O": 1}, 1), "SiH": ({"Si": 1, "H": 1}, 0), "HS+": ({"S": 1, "H": 1}, 1),
     "O*": ({"O": 1}, 0),      # an excited atom: an atomic form of O whose name is not the element's
+    "#OH": ({"O": 1, "H": 1}, 0), "#OH-": ({"O": 1, "H": 1}, -1),      # an ice in two charge states (targeted cases only)
 }
 ELECTRONS = {"e-", "E", "E-"}
 PSEUDO = ["CR", "CRP", "PHOTON", "CRPHOT"]
@@ -106,7 +107,7 @@ def balanced_reaction(rng: random.Random, pool: list[str]):
 # ------------------------------------------------------------------------------------------ building real networks
 
 # compositions known to the pool but only used by targeted networks (with the default lists `M` is a pseudo element, not a species)
-NOT_DRAWN = {"M", "M+"}
+NOT_DRAWN = {"M", "M+", "#OH", "#OH-"}
 
 
 def build_network(desc: dict):
@@ -284,7 +285,7 @@ def make_trace(tid: int, desc: dict, tag: str, o: dict, extra_species: list[str]
             continue        # (rendered although the species is absent: the model has no term for it, so any emitted term is a mismatch)
         for fact, deps in zip(ex["factors"], ex["reactants"]):
             fid = len(M)
-            ftext[norm_factor(fact)] = fid
+            ftext[norm_factor(str(fact))] = fid
             M.append({"t": slot[sname], "f": fid, "d": [slot[x] for x in deps]})
     H = [{"r": [slot[x] for x in r]} for r in desc.get("heating_user", [])]
     C = [{"r": [slot[x] for x in r]} for r in desc.get("cooling_user", [])] + \
@@ -517,7 +518,9 @@ def random_cases(rng: random.Random, n: int) -> list[dict]:
                 t = rng.choice(plist)
                 e = om.setdefault(t, {"factors": [], "reactants": []})
                 deps = [rng.choice(plist) for _ in range(rng.choice([0, 1, 1, 2, 2, 3]))]
-                e["factors"].append(rng.choice([f"mf{k}", f"-mf{k} + kads", f"2.0 * mf{k} - zeta / 3.0", f"-20.0 * mf{k}", f"100.0 * mf{k} + 0.0 * kads"]))
+                e["factors"].append(rng.choice([f"mf{k}", f"-mf{k} + kads", f"2.0 * mf{k} - zeta / 3.0", f"-20.0 * mf{k}", f"100.0 * mf{k} + 0.0 * kads",
+                                                # a NUMBER, not a text, with all its digits (the same number in the right-hand side and in the Jacobian)
+                                                -1.23456789e-3 * (k + 1), 0.3333333333333333 + k]))
                 e["reactants"].append(deps)
             desc["ode_modifier"] = om
         out.append(desc)
@@ -636,6 +639,9 @@ def main(ctx: Ctx) -> int:
         {"reactions": [(["Si", "O"], ["SiO"]), (["S+", "e-"], ["S"]), (["SiO", "S+"], ["SO+", "Si"]), (["Si+", "S"], ["Si", "S+"])], "required": [],
          "origin": "random"},
         {"reactions": [(["S+", "SiH"], ["HS+", "Si"]), (["Si+", "e-"], ["Si"]), (["S", "Si+"], ["S+", "Si"])], "required": ["SO"], "origin": "random"},
+        # an ice species in two charge states, one converted into the other: two species, two slots, charge balanced
+        {"reactions": [(["OH"], ["#OH"]), (["#OH", "e-"], ["#OH-"]), (["#OH-", "H+"], ["#OH", "H"]), (["H", "H"], ["H2"])], "required": [], "origin": "random"},
+        {"reactions": [(["#OH-", "H+"], ["#OH", "H"]), (["#OH", "e-"], ["#OH-"]), (["#OH"], ["OH"])], "required": ["H2"], "origin": "random"},
         # a species name the element list cannot parse (Ti is not a default element): the network is refused -- never built without it
         {"reactions": [(["TiO", "H"], ["Ti", "OH"]), (["Ti", "H3+"], ["Ti+", "H2", "H"]), (["H", "H"], ["H2"])], "required": [], "unparseable": ["TiO", "Ti", "Ti+"],
          "origin": "random"},
